@@ -79,7 +79,7 @@ def build_harness():
 AUDIT_EXTRA = {
     'C01': [('C01Compile', 'Garnish.Props.C01', None)],
     'C06': [('C06Static', 'Garnish.Props.C06', None)],
-    'C10': [('C01Compile', 'Garnish.Props.C01', r'^(C10_|C01_compile_correct$)')],
+    'C10': [('C01Compile', 'Garnish.Props.C01', r'^(C10_|C01_compile_correct$)'), ('C10Compile', 'Garnish.Props.C10', None)],
     'C17': [('C01Compile', 'Garnish.Props.C01', r'^(C17_|C01_compile_correct$|compile_env$)')],
     'C11': [('C11Refine', 'Garnish.Props.C11Refine', None)],
     'C18': [('C18Lex', 'Garnish.Props.C18Lex', None), ('C18Parse', 'Garnish.Props.C18Parse', None), ('C02Parse', 'Garnish.Props.C02Parse', r'^C18_')],
